@@ -329,7 +329,11 @@ add_event.obligation_props = [
     ("only-authorized", ["C14"]), ("only-newly-stored", ["C06", "C05"]), ("after-commit", ["C07"]),
     ("post:accepted-only-validated-and-authorized", ["C03", "C14", "C16"]),
     ("post:flag-iff", ["C06"]), ("post:returns-the", ["C06"]), ("post:stored-event", ["C06"]), ("post:duplicate", ["C06"]), ("post:broadcast-iff", ["C06", "C05"]),
-    ("post:transaction-closed", ["C07"]), ("post:single-transaction", ["C07", "C08", "C09"]), ("sql:", ["C07", "C08", "C09"]),
+    ("post:transaction-closed", ["C07", "C19"]), ("post:single-transaction", ["C07", "C08", "C09"]), ("sql:", ["C07", "C08", "C09"]),
+    # C19: a slot of the shared add semaphore that is not released on some exit wedges every later EVENT of every connection
+    ("excpost:EngineError+:transaction-closed-and-slot-released", ["C06", "C07", "C19"]), ("excpost:Exception+:transaction-closed-and-slot-released", ["C06", "C07", "C19"]),
+    ("excpost:StorageError:transaction-closed-and-slot-released", ["C06", "C07", "C19"]), ("excpost:AuthenticationError:transaction-closed-and-slot-released", ["C06", "C07", "C19"]),
+    ("post:transaction-closed", ["C07", "C19"]),
     ("excpost:", ["C06", "C07", "C08", "C09"]), ("call:", ["C07", "C08", "C09"]), ("exc:", ["C19", "C08", "C09"]),
 ]
 
@@ -427,3 +431,36 @@ run_query_sql = REG.unit(Unit(
 ))
 run_query_sql.ghost_havoc = lambda sx, body, st: [st.ghost.__setitem__(g, sx.fresh(V.Int, "g_" + g, st)) for g in ("n_eose_put", "n_event_put")]
 run_query_sql.obligation_props = [("put:event-passed", ["C14"]), ("put:", ["C13"]), ("post:", ["C13"]), ("exc:", ["C13"]), ("inv:", ["C13"])]
+
+
+# ---------------------------------------------------------------------------------------------------- DBStorage.run_query (C13, C19)
+# the async generator behind every stored-events query.  It holds one of the `num_concurrent_reqs` slots of the shared query semaphore
+# while it streams; the consumer may abandon it at any yield (CLOSE, a REQ reusing the id, disconnect).  Whatever the exit -- exhaustion,
+# an engine error (logged), GeneratorExit, cancellation -- the slot and the connection are given back: a leaked slot silences every
+# later REQ of every connection once the semaphore is used up (C13 "never silent", C19 "never wedges other connections").
+@REG.model("event_from_tuple")
+def _event_from_tuple(sx, args, kwargs, st, node):
+    """event_from_tuple(row) (util; own round trip is a bounded check of C04): the event of that row"""
+    return [R(st, sx.fresh(EVENT, "row_event", st))]
+
+
+REG.classes["DBStorageQ"] = {
+    "log": lambda sx, st, name: LOGGER,
+    "db": lambda sx, st, name: Conc(SQL.Engine()),
+    "query_slot": lambda sx, st, name: Conc(SQL.SemaphoreCM()),
+    "stat_collector": lambda sx, st, name: Conc(StatCollector()),
+}
+_RELEASED = ("slot-and-connection-released", "ghost('slots_held') == 0 and ghost('conns_open') == 0")
+run_query_storage = REG.unit(Unit(
+    P, "DBStorage.run_query",
+    Contract("DBStorage.run_query", {"self": V.ObjT("DBStorageQ"), "query": V.Opaque("SQLText")},
+             ensures=[_RELEASED],
+             raises={"GeneratorExit": True, "CancelledError": True},
+             exc_ensures={"GeneratorExit": [_RELEASED], "CancelledError": [_RELEASED]}),
+    loops={"result": LoopSpec("rows", index="_r", invariants=[("holding-one-slot", "ghost('slots_held') == 1 and ghost('conns_open') == 1"), ("counter", "'count' in counter")])},
+    props=["C13", "C19"], ghost_init=ghost_db,
+    canaries=[("never-finishes", "False")],
+))
+run_query_storage.yield_may_abort = True
+run_query_storage.param_defaults = {"if_long": lambda sx, st: NONE}
+run_query_storage.ghost_havoc = lambda sx, body, st: None
